@@ -11,7 +11,7 @@ import ast
 import copy as _copy
 
 from ..loader import AnalysisError, dotted, ClassInfo
-from ..astutil import clone, walk_own, calls_in, norm, Defs, leaves, stmt_of, kwarg, need, returns_of
+from ..astutil import clone, walk_own, calls_in, norm, Defs, leaves, stmt_of, kwarg, need, returns_of, expand
 from .. import cfg as cfgmod
 from ..calls import CallCtx, reachable_funcs
 from ..effects import Effects, get_effects
@@ -483,12 +483,15 @@ def rule_r5(p, res):
     for a, st, v in self_attr_stores(init.node):
         if a == "target" and gi.reaches(rec[0], st):
             gs = [(norm(t), pol) for t, pol in gi.guards(st)]
-            r.check(("target is not None", True) in gs, init, st, "after the iteration self.target may be replaced only when the caller fixed the target (guards: %s)" % gs)
+            r.check(("target is not None", True) in gs or ("target is None", False) in gs, init, st, "after the iteration self.target may be replaced only when the caller fixed the target (guards: %s)" % gs)
     # members are built towards self.target
     ctor = [c for c in calls_in(init.node) if (dotted(c.func) or "").endswith("AlignmentSimilarity")]
     need(ctor, "C08.R5: GPA no longer builds AlignmentSimilarity members")
+    di_ = Defs(init.node)
     for c in ctor:
-        r.check(len(c.args) >= 2 and norm(c.args[1]) == "self.target", init, c, "member transforms must be built towards self.target")
+        a1 = c.args[1] if len(c.args) >= 2 else kwarg(c, "target")
+        a1x = expand(a1, di_) if a1 is not None else None
+        r.check(a1x is not None and str(norm(a1x)) == "self.target", init, c, "member transforms must be built towards self.target (found `%s`)" % (norm(a1x) if a1x is not None else None))
 
 
 # -------------------------------------------------------------------- R6
